@@ -72,6 +72,8 @@ def make_pairs(tier, rng):
             prog["entry"] = rng.sample(nongate, rng.randint(1, min(2, len(nongate))))
         if rng.random() < 0.4 and data:
             prog["selected"] = rng.sample(data, rng.randint(1, min(2, len(data))))
+        elif rng.random() < 0.08:
+            prog["selected"] = []         # graph.select() with no names: an EMPTY selection (return / expose nothing), not "no selection"
         sel = None
         r = rng.random()
         if r < 0.3 and outs:
